@@ -314,6 +314,9 @@ class Job:
         # This is true if we fetched the result from the cache.
         self.was_cached: bool = False
 
+        # This is true while the job holds its resource limits (see Scheduler.limits_used).
+        self.holds_limits: bool = False
+
         # Hash of the CallNode associated with running this job. This hash requires knowledge
         # of the Job's result, hence is available after either computing or retrieving the result.
         self.call_hash: Optional[str] = None
@@ -1587,6 +1590,18 @@ class Scheduler:
         for limit_name, count in job_limits.items():
             self.limits_used[limit_name] -= count
 
+    def _release_job_resources(self, job: Job) -> None:
+        """
+        Returns the resource limits held by a job, exactly once.
+
+        A job that is done with its executor has already returned its resources, so it must
+        not return them again if it is rejected later because one of its child jobs failed.
+        """
+        if job.holds_limits:
+            job.holds_limits = False
+            self._release_resources(job.get_limits())
+            self._check_jobs_pending_limits()
+
     def _add_job_pending_limits(self, job: Job, eval_args: tuple[tuple, dict]) -> None:
         """
         Adds a job to the queue of jobs waiting to run once resources are available.
@@ -1764,6 +1779,7 @@ class Scheduler:
                 self._add_job_pending_limits(job, eval_args)
                 return
             self._consume_resources(job_limits)
+            job.holds_limits = True
 
         # Record that the job is actually starting.
         if job.recording_provenance():
@@ -1843,8 +1859,7 @@ class Scheduler:
 
         # Cached jobs won't have used any resources.
         if not job.was_cached:
-            self._release_resources(job.get_limits())
-            self._check_jobs_pending_limits()
+            self._release_job_resources(job)
 
         assert job.task
         assert job.eval_hash
@@ -2072,8 +2087,7 @@ class Scheduler:
 
             # Cached jobs won't have used any resources.
             if not job.was_cached:
-                self._release_resources(job.get_limits())
-                self._check_jobs_pending_limits()
+                self._release_job_resources(job)
 
             if self.use_task_traceback:
                 self._set_task_traceback(job, error, error_traceback=error_traceback)
